@@ -1,3 +1,4 @@
+import Ebu.Proofs.ConcCancelWitness
 import Ebu.Spec.Flow
 import Ebu.Spec.Bus
 import Ebu.Proofs.BusFrame
@@ -97,5 +98,22 @@ theorem flow_hooks_after_dispatch : Ebu.Flow.publishEpilogue = true := by decide
 
 /-- OBLIGATION: each of the two handler call sites sits in the `default` branch of a `select` on `ctx.Done()` (synchronous: `continue`; async goroutine: `return`) -/
 theorem flow_calls_guarded_by_ctx : Ebu.Flow.callsGuardedByCtx = true := by decide +kernel
+
+/-! ### KNOWN FINDING: the context check precedes the wait for a Sequential handler's mutex (M2) -/
+
+/-- KNOWN FINDING (C08-sequential-wait-outlives-cancellation).  The cancellation theorems above are about one publishing
+goroutine at a time.  With two, a synchronous Sequential handler can be started after the context of its publish was
+cancelled: goroutine 1 has passed its context check and waits for the handler's mutex, context 1 is cancelled, goroutine 0
+leaves the handler – and goroutine 1's next step enters it with the event of the cancelled publish.  M2 transcribes the
+code here (the `.lock` step does not look at the context again); the same history is replayed on the real code by the
+`seqcancel` witness. -/
+theorem sequential_wait_outlives_cancellation :
+    Ebu.Conc.ReachableT Ebu.Conc.CancelWitness.cwProgs Ebu.Conc.CancelWitness.cwState ∧
+    Ebu.Conc.CancelWitness.cwState.s.sh.cancelled = [1] ∧
+    (Ebu.Conc.CancelWitness.cwState.s.ths.map (fun th => th.frames.map (·.ctx))) = [[], [Ebu.Conc.Ctx.shared 1], []] ∧
+    Ebu.Conc.CancelWitness.cwState.stepAt 1 = some Ebu.Conc.CancelWitness.cwAfter ∧
+    Ebu.Conc.entriesOfReg 0 Ebu.Conc.CancelWitness.cwAfter.tr =
+      Ebu.Conc.entriesOfReg 0 Ebu.Conc.CancelWitness.cwState.tr ++ [(1, Ebu.Conc.Obs.enter 0 1 2 false)] :=
+  Ebu.Conc.CancelWitness.sequential_wait_outlives_cancellation
 
 end Ebu.Props.C08
